@@ -16,7 +16,7 @@ Lists(x, y) == {None, Some(<<>>), Some(<<x>>), Some(<<x, y>>), Some(<<x, x>>), S
 CfgLvl == {[min |-> m, app |-> a, ctx |-> None, ecu |-> None, appc |-> 0, ctxc |-> 0] : m \in {None} \cup {Some(n) : n \in Levels}, a \in {None, Some(<<IdA>>)}}
 CfgIds == {[min |-> m, app |-> a, ctx |-> c, ecu |-> e, appc |-> ac, ctxc |-> cc] :
              m \in {None, Some(3)}, a \in Lists(IdA, IdB), c \in {None, Some(<<>>), Some(<<IdC>>)}, e \in {None, Some(<<>>), Some(<<IdE>>)}, ac \in 0..3, cc \in 0..2}
-HdrLvl == {[ext |-> Some([verb |-> TRUE, noar |-> 1, mt |-> <<tp, ti>>, ap |-> IdA, ct |-> IdC]), ecu |-> None] : tp \in 0..7, ti \in 0..15}
+HdrLvl == {[ext |-> Some([verb |-> vb, noar |-> 1, mt |-> <<tp, ti>>, ap |-> IdA, ct |-> IdC]), ecu |-> None] : tp \in 0..7, ti \in 0..15, vb \in BOOLEAN}     \* the level rule does not look at the verbose flag
 HdrIds == {[ext |-> x, ecu |-> e] : x \in {None} \cup {Some([verb |-> TRUE, noar |-> 1, mt |-> mt, ap |-> ap, ct |-> ct]) : mt \in {<<0, 4>>, <<0, 9>>, <<3, 1>>}, ap \in {IdA, IdB, IdC}, ct \in {IdC, <<68>>}},
                                    e \in {None, Some(IdE), Some(IdF)}}
 VARIABLES part, cfg, hd
